@@ -33,7 +33,8 @@ sources, all skip scripts (well-behaved or not) and all call sequences. -/
 theorem interface_total (src : List (List Nat)) (t : Term) (sk : List Int) (cs : Bool) (hs : SrcOk src)
     (ops : List Op) (hops : OpsOk ops) : Inv (runOps (C05.open_ src t sk cs) ops) := by
   have h0 : Inv (C05.open_ src t sk cs) := inv_init src t sk cs hs
-  generalize C05.open_ src t sk cs = s at h0
+  have hn0 : NoSeekSkip (C05.open_ src t sk cs) := Or.inl rfl
+  generalize C05.open_ src t sk cs = s at h0 hn0
   induction ops generalizing s with
   | nil => exact h0
   | cons op ops ih =>
@@ -41,8 +42,8 @@ theorem interface_total (src : List (List Nat)) (t : Term) (sk : List Int) (cs :
     cases op with
     | ahead m =>
       have hm : m ≤ 2 ^ 62 := hops (.ahead m) (by simp)
-      exact ih hops' _ (ahead_refines s m h0 hm).1
-    | consume n => exact ih hops' _ (consume_suffix s n h0).1
+      exact ih hops' _ (ahead_refines s m h0 hm).1 (noSeekSkip_of_static (ahead_static s m) hn0)
+    | consume n => exact ih hops' _ (consume_suffix s n h0 hn0).1 (noSeekSkip_of_static (consume_static s n).1 hn0)
 
 /-- Where a returned window lives. -/
 theorem aheadLoop_shape (s : State) (min : Nat) (w : List Nat) (fc : Bool)
